@@ -5,6 +5,7 @@ import numpy as np
 
 from .. import core, fit_lib as fl, gemini_lib as gl
 from translator import nets as tn, tables
+from . import c15
 
 
 def regen(ctx):
@@ -381,6 +382,7 @@ def run(ctx):
                 "Richardson central differences of the regularised objective along random per-parameter directions; kinks "
                 "(ReLU, TV, OT, Douglas ties) detected by one-sided slopes and skipped; non-trivial = fit completed")
     regen(ctx)
+    c15.regen(ctx)          # Douglas is one of C03's families: Gen/Douglas.lean + companion C15Gen
     ctx.do_prove()
     rs = np.random.RandomState(ctx.seed * 1009 + 3)
     try:
